@@ -80,6 +80,12 @@ func oneClauseQueries(pairs bool) []*bqlm.Query {
 			for _, m := range mods {
 				variants = append(variants, bqlm.WithModifier(c, m, "?m0"))
 			}
+			// an alias that takes the name of a binding the clause already has: the extraction and the binding must agree
+			for _, m := range mods {
+				for _, b := range c.Bindings() {
+					variants = append(variants, bqlm.WithModifier(c, m, b))
+				}
+			}
 			if pairs {
 				for i := 0; i < len(mods); i++ {
 					for j := i + 1; j < len(mods); j++ {
